@@ -139,7 +139,9 @@ func c15One(c *vf.Ctx, sub string, i int, r *rand.Rand, ids []Ident) {
 	ent2, _ := NewEntryChain(r, pst2, 1, linkProto(multihash.SHA2_256, -1))
 	hook := func(p peer.ID, cd cid.Cid, _ dagsync.SegmentSyncActions) {
 		note("hook " + cd.String())
-		if nested && ent2 != nil && tl.count("close.begin") > 0 && nestedOnce.CompareAndSwap(false, true) {
+		// (only from hooks of the first publisher: a sync of the second publisher called from that publisher's own hook
+		// would wait for the lock its caller holds, with or without Close)
+		if nested && p == id.ID && ent2 != nil && tl.count("close.begin") > 0 && nestedOnce.CompareAndSwap(false, true) {
 			if sub := sp.Load(); sub != nil {
 				_ = sub.SyncOneEntry(context.Background(), front2.AddrInfo(), ent2.Head())
 				c.Inc("explicit_call_from_the_hook_of_a_sync_close_waits_for")
